@@ -222,3 +222,36 @@ Proof.
   destruct (connect_plain (a_w a') h p s srest g Ho Hscr Hre Htls Gn Gc G421 G120) as (w' & St & Is & _ & Sl & _).
   unfold lib. rewrite St. eexists. split; [reflexivity|]. cbn [a_w a_fs say with_w]. auto.
 Qed.
+
+(* a script of non-empty lines, each a connection-needing command (any spelling, any arguments) *)
+Definition offline_line (l : bytes) : Prop :=
+  l <> [] /\ exists c args, parse_command l = Some (c, args) /\ needs_connection c = true.
+
+Fixpoint offline_output (n : nat) : list out_item :=
+  match n with O => [] | S k => OPrompt p_main :: OLine m_not_open :: offline_output k end.
+
+(* C20: a whole script of such lines given while disconnected: every line is answered "Connection is not open.", the
+   session state (hence the network: no library call is ever made) and the local files are untouched, and the run ends
+   at the end of the input with the success status *)
+Theorem offline_script : forall lines w files out0,
+  w_open w = false -> Forall offline_line lines ->
+  let a := mkApp w files lines out0 in
+  run_main a = (ExitSuccess, mkApp w files [] (out0 ++ offline_output (length lines) ++ [OPrompt p_main])).
+Proof.
+  intros lines w files out0 Ho Hl. cbv zeta. unfold run_main. cbn [a_in].
+  assert (G : forall fuel lines out0, Forall offline_line lines -> (length lines < fuel)%nat ->
+            run_app fuel (mkApp w files lines out0) =
+            (ExitSuccess, mkApp w files [] (out0 ++ offline_output (length lines) ++ [OPrompt p_main]))).
+  { clear Hl lines out0. induction fuel as [|fuel IH]; intros lines out0 Hl Hf; [inversion Hf|].
+    destruct lines as [|l lines].
+    - cbn. reflexivity.
+    - inversion Hl as [|? ? (Hne & c & args & Hp & Hn) Hl']; subst.
+      cbn [run_app read_line a_in]. cbn [a_w a_fs a_out].
+      destruct l as [|b l']; [congruence|].
+      rewrite Hp.
+      rewrite (offline_guard _ c args Hn); [|exact Ho].
+      unfold say. cbn [a_w a_fs a_in a_out].
+      rewrite IH; [|exact Hl'|cbn in Hf; apply Nat.succ_lt_mono; exact Hf].
+      cbn [length offline_output]. rewrite <- !app_assoc. reflexivity. }
+  apply G; [exact Hl|apply Nat.lt_succ_diag_r].
+Qed.
